@@ -179,7 +179,7 @@ theorem ioInsert_I_own (w : World) (g : Nat) (k : IOKind) (pos v : Nat) (h : I_o
       by_cases hu : u = v <;> simp [hu]
       · intro _; exact owned_of_flag k _ (by simp)
       · exact this
-  · simp [ioInsert, hc]; exact h
+  · simp [ioInsert, hc]; exact I_own_bump h
 
 /-! ### `ioRemoveAt` -/
 
@@ -248,7 +248,7 @@ theorem mem_eraseIdx_iff_count (l : List Nat) (pos v u : Nat) (h : l[pos]? = som
 theorem ioRemoveAt_I_own (w : World) (g : Nat) (k : IOKind) (pos : Nat) (h : I_own w) :
     I_own (ioRemoveAt w g k pos) := by
   cases hv : (ioList k (w.gr g))[pos]? with
-  | none => simp [ioRemoveAt, hv]; exact h
+  | none => simp [ioRemoveAt, hv]; exact I_own_bump h
   | some v =>
     have hmem : v ∈ ioList k (w.gr g) := List.mem_of_getElem? hv
     have hcnt := h.cnt k g v
@@ -428,7 +428,7 @@ theorem ioRemoveAt_I_prod (w : World) (g : Nat) (k : IOKind) (pos : Nat) (h : I_
 theorem ioRemoveAt_I_key (w : World) (g : Nat) (k : IOKind) (pos : Nat) (h : I_key w) :
     I_key (ioRemoveAt w g k pos) := by
   cases hv : (ioList k (w.gr g))[pos]? with
-  | none => simp [ioRemoveAt, hv]; exact h
+  | none => simp [ioRemoveAt, hv]; exact I_key_bump h
   | some v =>
     apply I_key_congr _ _ h
     · intro u; rw [ioRemoveAt_val _ _ _ _ _ hv]; split <;> simp_all [released]
@@ -437,7 +437,7 @@ theorem ioRemoveAt_I_key (w : World) (g : Nat) (k : IOKind) (pos : Nat) (h : I_k
 theorem ioRemoveAt_I_node (w : World) (g : Nat) (k : IOKind) (pos : Nat) (h : I_node w) :
     I_node (ioRemoveAt w g k pos) := by
   cases hv : (ioList k (w.gr g))[pos]? with
-  | none => simp [ioRemoveAt, hv]; exact h
+  | none => simp [ioRemoveAt, hv]; exact I_node_bump h
   | some v =>
     apply I_node_congr _ _ h
     · intro n; rw [ioRemoveAt_node]
